@@ -14,7 +14,22 @@ TRUSTED = ['vlib/minimysql', 'vlib/batchsim', 'vlib/batchsim/oracle.py']
 
 
 def step(w, prev, cur, op, res):
-    f = O.check_free_cores(cur)
+    # attempts that ended in this op while their instance was (and stays) pending: see the known finding in check_free_cores
+    if not hasattr(w, 'uncredited'):
+        w.uncredited = {}
+    pstate = {r['name']: r['state'] for r in prev.S['instances']}
+    cstate = {r['name']: r['state'] for r in cur.S['instances']}
+    for k, a in cur.attempts.items():
+        p = prev.attempts.get(k)
+        n = a['instance_name']
+        if p is not None and p['end_time'] is None and a['end_time'] is not None and pstate.get(n) == 'pending' and cstate.get(n) == 'pending':
+            j = cur.jobs.get((a['batch_id'], a['job_id']))
+            if j is not None:
+                w.uncredited[n] = w.uncredited.get(n, 0) + j['cores_mcpu']
+    for n in list(w.uncredited):
+        if cstate.get(n) not in ('pending', 'active'):
+            del w.uncredited[n]      # deactivation resets the row to all cores free
+    f = O.check_free_cores(cur, w.uncredited)
     if f:
         return f
     free = {r['name']: r['free_cores_mcpu'] for r in cur.S['instances_free_cores_mcpu']}
